@@ -344,6 +344,14 @@ def _run_split(case, ctx):
     if len(index_of) != n:
         raise M.HarnessError("timestamps are not unique")
 
+    if n <= 40 and (n + bits) % 3 == 0:
+        # two tracks used in turn: another track carries a feature of the SAME name at another column position (its
+        # first) and is split on it just before; each track must be split on ITS marker
+        other = gen.make_track(_points(n + 1), _times(n + 1))
+        other.createAnalyticalFeature(MK, [1.0 if i % 2 == 0 else 0.0 for i in range(n + 1)])
+        other.createAnalyticalFeature("id", list(range(n + 1)))
+        M.call(split, other, MK)
+        ctx.count("another_track_with_the_same_marker_name_split_first")
     coll = M.call(split, tr, MK)
     if M.is_raised(coll):
         return violated({"what": "split() raised", "n": n, "markers": markers, "raised": coll}, sig, nontrivial, cls)
